@@ -348,11 +348,20 @@ async fn put(st: &mut TcpStream, b: u8, readiness: bool) -> std::io::Result<()> 
     if !readiness {
         return st.write_all(&[b]).await;
     }
+    let mut spins = 0u32;
     loop {
         st.writable().await?;
         match st.try_write(&[b]) {
             Ok(_) => return Ok(()),
-            Err(e) if e.kind() == std::io::ErrorKind::WouldBlock => continue,
+            Err(e) if e.kind() == std::io::ErrorKind::WouldBlock => {
+                // writable() that keeps answering "ready" while try_write keeps answering
+                // WouldBlock never yields to the simulation: the writer is stuck for good
+                spins += 1;
+                if spins > 10_000 {
+                    panic!("writable() reported readiness 10000 times in a row while try_write() kept returning WouldBlock: the writer can neither proceed nor learn that the connection is gone");
+                }
+                continue;
+            }
             Err(e) => return Err(e),
         }
     }
